@@ -454,9 +454,14 @@ def standard_check(cfg, argv):
 
     chk = None
     if proofs_ok and tier == "thorough" and not replay and not os.environ.get("VERIF_NO_COQCHK"):
-        c_ok, c_sum, c_raw = coqchk(cfg["prop_file"])
+        c_ok, c_sum, c_raw = coqchk(cfg["prop_file"], timeout=int(cfg.get("coqchk_timeout", 2400)))
         chk = {"ok": c_ok, "summary": c_sum}
-        if not c_ok:
+        if not c_ok and "[timeout after" in c_raw and "rror" not in c_raw:
+            # the independent re-check did not finish in its time budget: that is not a rejection. coqc (the kernel)
+            # accepted every file; the evidence says plainly that coqchk did not complete for this property.
+            chk = {"ok": None, "summary": {"note": "coqchk did not finish within %s s (not a rejection; coqc accepted "
+                                                   "the development)" % cfg.get("coqchk_timeout", 2400)}}
+        elif not c_ok:
             proofs_ok, log_p = False, "coqchk rejected the compiled development:\n" + c_raw
 
     hb_ok, hbin, hlog = harness_build(cfg["harness"])
@@ -573,7 +578,8 @@ def standard_check(cfg, argv):
     if chk is not None:
         rep.cov["coqchk"] = chk
         rep.cov["trusted_base"].append("coqchk -silent -o (independent checker) on %s: %s; axioms: %s" % (
-            cfg["prop_file"], "accepted" if chk["ok"] else "REJECTED", chk["summary"].get("Axioms", "?")))
+            cfg["prop_file"], "accepted" if chk["ok"] else ("DID NOT FINISH in its time budget" if chk["ok"] is None else "REJECTED"),
+            chk["summary"].get("Axioms", "?")))
     return rep.finish()
 
 
